@@ -532,7 +532,11 @@ func (e *Engine) Discharge(par int) {
 			// stage 1: without the quantified library axioms (their ground instances are among the hypotheses):
 			// unsat here is unsat with them too; a model found here is a candidate.
 			r := Solve(e.TmpDir, fmt.Sprintf("q%d_%s", o.QueryNo, o.Name), preludeG+b.String(), e.TimeoutS, e.Agree)
-			if !(r.Status == "unsat" && !o.Cover) {
+			// A quantifier-free query that is sat without the library axioms is sat with them: the axioms only
+			// constrain be64/unbe64/sha256 outside the ground terms of the query, and Str is an infinite
+			// uninterpreted sort, so the model extends.
+			qf := !strings.Contains(b.String(), "(forall ") && !strings.Contains(b.String(), "(exists ")
+			if !(r.Status == "unsat" && !o.Cover) && !(r.Status == "sat" && qf) {
 				r2 := Solve(e.TmpDir, fmt.Sprintf("q%d_%s_ax", o.QueryNo, o.Name), prelude+b.String(), e.TimeoutS, e.Agree)
 				r2.Secs += r.Secs
 				switch {
